@@ -126,55 +126,77 @@ Theorem C07_table_close_free_accept_all :
 Proof. vm_compute. reflexivity. Qed.
 Print Assumptions C07_table_close_free_accept_all.
 
-(* Writer free releases the client exactly once - PROVED ONLY for a writer that has not failed: *)
-Theorem C07_write_free_releases_partial : forall t h a b c d st h',
+(* free is accepted in every state and ends the handle: writer and disk writer *)
+Theorem C07_write_free_accepted : forall t h a b c d,
   site_accepts_all t ("_archive_write_free", WM) = true ->
   site_accepts_all t ("_archive_write_close", WM) = true ->
-  hmagic h = WM -> valid_state (hstate h) -> hstate h <> ARCHIVE_STATE_FATAL -> wbal h ->
-  ((hstate h = ARCHIVE_STATE_NEW \/ hstate h = ARCHIVE_STATE_CLOSED) -> w_filter (wr h) <> 1%N) ->
-  wr_free t h a b c d = RRet st h' ->
-  hmagic h' = 0%N /\ w_filter (wr h') = 0%N /\ w_closes (wr h') = w_opens (wr h').
-Proof. exact write_free_releases_when_not_failed. Qed.
-Print Assumptions C07_write_free_releases_partial.
-(* what is missing is FALSE of the code: _archive_write_free skips archive_write_close on a FATAL
-   handle, so an open client filter (and every compression filter) is never closed.
-   Witness: set_format, open (OK), archive_write_fail, free  ->  1 open, 0 close. *)
-Theorem C07_write_free_releases_on_failed_refuted :
-  exists ops h', last (run_ops magic_table new_write ops) (OFail, 0, new_write) = (WFree 0 0 0 0, ARCHIVE_OK, h') /\
-                 hmagic h' = 0%N /\ w_opens (wr h') = 1%N /\ w_closes (wr h') = 0%N.
-Proof.
-  exists [WSetFormat "archive_write_set_format_ustar" 0; WOpen 0 0; OFail; WFree 0 0 0 0].
-  eexists. vm_compute. repeat split; reflexivity.
-Qed.
-Print Assumptions C07_write_free_releases_on_failed_refuted.
+  hmagic h = WM -> valid_state (hstate h) ->
+  exists st h1, wr_free t h a b c d = RRet st h1 /\ hmagic h1 = 0%N.
+Proof. exact write_free_accepted. Qed.
+Print Assumptions C07_write_free_accepted.
 
-(* Disk writer: free applies and releases the fix-ups - PROVED ONLY for a handle that has not failed *)
-Theorem C07_disk_write_free_releases_partial : forall t h r st h', dw_sites_ok t = true ->
-  hmagic h = WDM -> hstate h = ARCHIVE_STATE_HEADER \/ hstate h = ARCHIVE_STATE_DATA ->
-  dw_free t h r = RRet st h' -> hmagic h' = 0%N /\ fixups h' = 0%N.
-Proof. exact disk_write_free_releases_when_not_failed. Qed.
-Print Assumptions C07_disk_write_free_releases_partial.
+Theorem C07_disk_write_free_accepted : forall t h r e,
+  site_accepts_all t ("_archive_write_disk_free", WDM) = true ->
+  (exists m1, site_mask t "_archive_write_disk_close" WDM = Some m1) ->
+  (exists m2, site_mask t "_archive_write_disk_finish_entry" WDM = Some m2) ->
+  hmagic h = WDM -> valid_state (hstate h) ->
+  exists st h1, dw_free t h r e = RRet st h1 /\ hmagic h1 = 0%N.
+Proof. exact disk_write_free_accepted. Qed.
+Print Assumptions C07_disk_write_free_accepted.
 
-Theorem C07_table_dw_sites_ok : dw_sites_ok magic_table = true.
+(* Writer: along EVERY program from archive_write_new and every back-end behaviour - failed handle
+   included - the client is never closed more often than it was opened, and once the handle is gone
+   no filter is left and #close = #open.  (In the tree before the fix "archive_write_free on a failed
+   writer never closed its filters" this was refuted by: set_format, open, archive_write_fail, free.) *)
+Theorem C07_writer_releases_exactly_once : forall t, wopen_only_new t = true ->
+  site_accepts_all t ("_archive_write_close", WM) = true -> forall ops,
+  Forall (fun x : op * Z * handle =>
+            let h := snd x in
+            (hmagic h = 0%N -> w_filter (wr h) = 0%N /\ w_closes (wr h) = w_opens (wr h)) /\
+            (w_closes (wr h) <= w_opens (wr h))%N)
+         (run_ops t new_write ops).
+Proof. exact writer_releases_exactly_once. Qed.
+Print Assumptions C07_writer_releases_exactly_once.
+
+Theorem C07_table_wopen_only_new : wopen_only_new magic_table = true.
 Proof. vm_compute. reflexivity. Qed.
-Print Assumptions C07_table_dw_sites_ok.
+Print Assumptions C07_table_wopen_only_new.
 
-(* "close and free are accepted from every state" is FALSE for the disk writer's close in the current
-   sources: its mask is HEADER|DATA, so on a failed handle it returns FATAL before touching the
-   fix-up list, and free - which relies on it - releases nothing. *)
+(* the former witness, now released: 1 open, 1 close, no filter left *)
+Theorem C07_write_free_on_failed_releases :
+  exists h', last (run_ops magic_table new_write
+                     [WSetFormat "archive_write_set_format_ustar" 0; WOpen 0 0; OFail; WFree 0 0 0 0])
+                  (OFail, 0, new_write) = (WFree 0 0 0 0, ARCHIVE_OK, h') /\
+             hmagic h' = 0%N /\ w_opens (wr h') = 1%N /\ w_closes (wr h') = 1%N /\ w_filter (wr h') = 0%N.
+Proof. eexists. vm_compute. repeat split; reflexivity. Qed.
+Print Assumptions C07_write_free_on_failed_releases.
+
+(* Disk writer: along EVERY program from archive_write_disk_new - failed handle included, and for
+   ANY table of masks - once the handle is gone no fix-up entry is left and no file is left open.
+   (Refuted before the fix "archive_write_disk_free on a failed handle leaked the fix-up list, the
+   open file and the lookup caches".) *)
+Theorem C07_disk_writer_releases_everything : forall t ops,
+  Forall (fun x : op * Z * handle => let h := snd x in hmagic h = 0%N -> fixups h = 0%N /\ dw_fd h = false)
+         (run_ops t new_write_disk ops).
+Proof. exact disk_writer_releases_everything. Qed.
+Print Assumptions C07_disk_writer_releases_everything.
+
+(* the former witness: a directory header that queues a fix-up, a file left open, failure, free *)
+Theorem C07_disk_write_free_on_failed_releases :
+  exists h', last (run_ops magic_table new_write_disk
+                     [DWHeader 0 false false 0 true false; DWHeader 0 false false 0 false true; OFail; DWFree 0 false])
+                  (OFail, 0, new_write_disk) = (DWFree 0 false, ARCHIVE_FATAL, h') /\
+             hmagic h' = 0%N /\ fixups h' = 0%N /\ dw_fd h' = false.
+Proof. eexists. vm_compute. repeat split; reflexivity. Qed.
+Print Assumptions C07_disk_write_free_on_failed_releases.
+
+(* "close is accepted from every state" stays FALSE for the disk writer, and has to: the unedited
+   suite (test_write_disk_secure746) requires archive_write_close on a failed disk writer to answer
+   FATAL.  Its mask is HEADER|DATA; free no longer depends on it. *)
 Theorem C07_disk_write_close_accepts_all_refuted :
   site_accepts_all magic_table ("_archive_write_disk_close", WDM) = false.
 Proof. vm_compute. reflexivity. Qed.
 Print Assumptions C07_disk_write_close_accepts_all_refuted.
-
-Theorem C07_disk_write_free_on_failed_refuted :
-  exists ops h', last (run_ops magic_table new_write_disk ops) (OFail, 0, new_write_disk) = (DWFree 0, ARCHIVE_FATAL, h') /\
-                 hmagic h' = 0%N /\ fixups h' = 1%N.
-Proof.
-  exists [DWHeader 0 false 0 true; OFail; DWFree 0].
-  eexists. vm_compute. repeat split; reflexivity.
-Qed.
-Print Assumptions C07_disk_write_free_on_failed_refuted.
 
 (* non-vacuity: a legal reader program really moves through the states, an illegal call really fails
    it, the failed handle answers FATAL, close then free end it with the data source closed once *)
